@@ -117,9 +117,67 @@ Section CacheProofs.
       Merge (firstn i ts ++ rest :: skipn (S i) ts)%list h ->
       Merge ts ((o, i) :: h).
 
+  (* what goroutine i issued / observed in an interleaving *)
+  Definition issued_by (i : nat) (h : list (op ty * nat)) : list (op ty) :=
+    map fst (filter (fun p => Nat.eqb (snd p) i) h).
+  Definition observed_by (i : nat) (h : list (op ty * nat)) (rs : list outcome) : list outcome :=
+    map snd (filter (fun p => Nat.eqb (snd (fst p)) i) (combine h rs)).
+
+  Lemma nth_update_same : forall (ts : list (list (op ty))) i x rest,
+    nth_error ts i = Some x ->
+    nth i (firstn i ts ++ rest :: skipn (S i) ts)%list [] = rest.
+  Proof.
+    induction ts as [|t ts IH]; intros i x rest H; destruct i; cbn in *; try discriminate.
+    - reflexivity.
+    - eapply IH. eassumption.
+  Qed.
+
+  Lemma nth_update_other : forall (ts : list (list (op ty))) i j x rest,
+    nth_error ts i = Some x -> i <> j ->
+    nth j (firstn i ts ++ rest :: skipn (S i) ts)%list [] = nth j ts [].
+  Proof.
+    induction ts as [|t ts IH]; intros i j x rest H Hne; destruct i; cbn in *; try discriminate.
+    - destruct j; [congruence| reflexivity].
+    - destruct j; [reflexivity|]. eapply IH; [eassumption| congruence].
+  Qed.
+
+  Lemma nth_all_nil : forall (ts : list (list (op ty))) i,
+    Forall (fun t => t = []) ts -> nth i ts [] = [].
+  Proof.
+    induction ts as [|t ts IH]; intros i H; destruct i; cbn; try reflexivity.
+    - inversion H; subst. reflexivity.
+    - inversion H; subst. apply IH. assumption.
+  Qed.
+
+  (* an interleaving contains, for every goroutine, exactly its requests in its order *)
+  Lemma merge_issued : forall ts h, Merge ts h -> forall i, issued_by i h = nth i ts [].
+  Proof.
+    intros ts h H. induction H as [ts Hall|ts j o rest h Hn HM IH]; intros i.
+    - cbn. symmetry. apply nth_all_nil. exact Hall.
+    - unfold issued_by in *. cbn [filter snd]. destruct (Nat.eqb j i) eqn:E.
+      + apply Nat.eqb_eq in E. subst j. cbn [map fst]. rewrite (IH i).
+        rewrite (nth_update_same ts i (o :: rest) rest Hn).
+        symmetry. apply nth_error_nth with (d := []) in Hn. exact Hn.
+      + apply Nat.eqb_neq in E. rewrite (IH i).
+        apply (nth_update_other ts j i (o :: rest) rest Hn E).
+  Qed.
+
+  Lemma observed_fresh : forall i h,
+    observed_by i h (map (fun p => fresh (fst p)) h) = map fresh (issued_by i h).
+  Proof.
+    intros i h. unfold observed_by, issued_by. induction h as [|[o j] h IH]; [reflexivity|].
+    cbn [map combine filter fst snd]. destruct (Nat.eqb j i); cbn [map fst snd]; rewrite IH; reflexivity.
+  Qed.
+
+  (* whatever the schedule, every goroutine observes for its own request list exactly the
+     outcomes of a freshly loaded Config *)
   Lemma concurrent_fresh : forall ts h,
-    Merge ts h -> run [] (map fst h) = map (fun p => fresh (fst p)) h.
-  Proof. intros ts h _. rewrite (run_all_fresh _ [] inv_nil), map_map. reflexivity. Qed.
+    Merge ts h -> forall i,
+    observed_by i h (run [] (map fst h)) = map fresh (nth i ts []).
+  Proof.
+    intros ts h HM i. rewrite (run_all_fresh _ [] inv_nil), map_map.
+    rewrite observed_fresh. rewrite (merge_issued ts h HM i). reflexivity.
+  Qed.
 End CacheProofs.
 
 (* ------------------------------------------------------------------ the pinned code *)
